@@ -28,6 +28,15 @@ TAG_MAP.update(
      univ.Real.tagSet: RealPayloadDecoder()}
 )
 
+# DER prohibits the constructed encoding of every string type, not only of
+# BIT STRING and OCTET STRING (X.690, section 10.2)
+for tagSet, typeDecoder in list(TAG_MAP.items()):
+    if (isinstance(typeDecoder, decoder.OctetStringPayloadDecoder) and
+            typeDecoder.supportConstructedForm):
+        typeDecoder = typeDecoder.__class__()
+        typeDecoder.supportConstructedForm = False
+        TAG_MAP[tagSet] = typeDecoder
+
 TYPE_MAP = decoder.TYPE_MAP.copy()
 
 # Put in non-ambiguous types for faster codec lookup. The codecs of this
